@@ -19,6 +19,11 @@
 // logging and a backlog is queued another thread calls resetOwnThread(); the producers go on logging during the drain and
 // after it (synchronous again).  Handshakes only (no timing assumptions): phase 1 free, phase 2 starts when the reset is
 // about to be called, phase 3 starts when resetOwnThread() has returned.
+// slow-handler reset modes ("resetslow", "bareresetslow"): the pipeline starts asynchronous; every producer logs its first half, then
+// producer 0 logs the MARKER (its message number per/2), the last queued message, whose handler is slow: it sleeps <stall ms> and
+// then waits (at most 3 s) until a logging call made AFTER the reset began has returned.  As soon as the worker is inside that
+// handler (handshake) another thread calls resetOwnThread(); stall/4 ms later every producer logs its second half.  Nobody may
+// enter the pipeline while the worker is still inside it, and those messages are delivered after the marker.
 #ifdef VERIF_HEADER_ONLY
 #include "qtlogger.h"
 #else
@@ -128,6 +133,20 @@ struct RandomWork : Handler {   // a handler of random duration
         return true;
     }
 };
+struct HoldOnMarker : Handler {   // the handler of long duration of the resetslow modes
+    int marker = 0;
+    std::atomic<bool> entered{false};
+    std::atomic<int> late_returned{0};
+    bool process(LogMessage &m) override
+    {
+        int p, i; parse(m, p, i);
+        if (p == 0 && i == marker && !entered.exchange(true)) {
+            usleep((g_stall_ms > 0 ? g_stall_ms : 400) * 1000);
+            for (int k = 0; k < 3000 && late_returned.load() == 0; k++) usleep(1000);
+        }
+        return true;
+    }
+};
 struct SlowWork : Handler {     // a handler that takes 50..350 us: lets a backlog build up in front of a worker thread
     bool process(LogMessage &) override { usleep(50 + tl_rng() % 300); return true; }
 };
@@ -233,7 +252,7 @@ int main(int argc, char **argv)
             std::ostringstream o;
             o << "RUN " << mode << " " << n << " " << per << " " << seed << " " << g_perturb << " " << dup
               << " events=" << g_ticket.load() << (g_ticket.load() > (long)g_events.size() ? " OVERFLOW" : "") << extra;
-            if (mode.find("resetwhile") != std::string::npos) o << " worker_runs=" << g_runs_worker.load() << " caller_runs=" << g_runs_caller.load();
+            if (mode.find("reset") != std::string::npos) o << " worker_runs=" << g_runs_worker.load() << " caller_runs=" << g_runs_caller.load();
             if (mode == "pattern") o << " fmt_checked=" << g_fmt_checked << " fmt_bad=" << g_fmt_bad << " first_bad=" << (g_fmt_first.empty() ? "-" : g_fmt_first);
             o << "\n";
             for (long k = 0; k < cnt; k++) {
@@ -381,6 +400,48 @@ int main(int argc, char **argv)
                 });
             std::thread resetter([&] {
                 while (posted.load() < n * a) usleep(50);      // every producer has finished phase 1: a backlog is queued
+                reset_started = true;
+                oh.resetOwnThread();
+                reset_done = true;
+            });
+            for (auto &t : ths) t.join();
+            resetter.join();
+            if (!bare) Logger::restorePreviousMessageHandler();
+        } else if (mode == "resetslow" || mode == "bareresetslow") {
+            const bool bare = mode == "bareresetslow";
+            Logger lg;
+            OwnThreadHandler<SimplePipeline> h;
+            OwnThreadHandler<SimplePipeline> &oh = bare ? h : static_cast<OwnThreadHandler<SimplePipeline> &>(lg);
+            auto hold = QSharedPointer<HoldOnMarker>::create();
+            const int a = std::max(1, per / 2);
+            hold->marker = a;
+            oh << QSharedPointer<EnterProbe>::create() << hold << SeqNumberAttrPtr::create();
+            if (dup) oh << DuplicateFilterPtr::create();
+            oh << QSharedPointer<RandomWork>::create() << QSharedPointer<RecSink>::create();
+            oh.moveToOwnThread();
+            if (!bare) lg.installMessageHandler();
+            std::atomic<int> posted{0};
+            std::atomic<bool> reset_started{false}, reset_done{false};
+            const int gap_us = (g_stall_ms > 0 ? g_stall_ms : 400) * 1000 / 4;
+            for (int p = 0; p < n; p++)
+                ths.emplace_back(producer, p, [&](int p, int i) {
+                    const bool marker = p == 0 && i == a;
+                    if (marker) while (posted.load() < n * a) usleep(50);              // everything else of phase 1 is queued in front of it
+                    const bool late = i >= a && !marker;
+                    if (late && i == a + (p == 0 ? 1 : 0)) {                            // first message of the second half
+                        while (!reset_started.load()) usleep(50);
+                        usleep(gap_us);                                                 // resetOwnThread() is under way, the worker inside the marker
+                    }
+                    if (bare) {
+                        QMessageLogContext ctx("reset.cpp", i, "void resetting()", "default");
+                        LogMessage m((i & 1) ? QtWarningMsg : QtInfoMsg, ctx, QString::number(p) + QLatin1Char(' ') + QString::number(i));
+                        h.process(m);
+                    } else if (i & 1) qWarning("%d %d", p, i); else qInfo("%d %d", p, i);
+                    if (late) hold->late_returned++;
+                    posted++;
+                });
+            std::thread resetter([&] {
+                for (int k = 0; k < 20000 && !hold->entered.load(); k++) usleep(500);     // the worker is inside the slow handler of the last queued message
                 reset_started = true;
                 oh.resetOwnThread();
                 reset_done = true;
